@@ -39,7 +39,7 @@ PLAN["C12"] = {
 
 _KERNEL_FUNCS = ["table_size", "num_vars_mask", "fill_one", "fill_zero", "not_inplace", "get_bit", "set_bit", "unset_bit",
                  "flip_inplace", "swap_inplace", "swap_adjacent_inplace", "cofactor0_inplace", "cofactor1_inplace",
-                 "from_cofactors_inplace", "next_inplace", "fill_random"]
+                 "from_cofactors_inplace", "next_inplace", "fill_random", "hex_str_size"]
 
 _VERUS_ASSUMED = [
     "Verus proofs are for 64-bit targets (global size_of usize == 8) and require num_vars < 64",
@@ -326,6 +326,7 @@ PLAN["C09"] = {
     "technique": "Kani function contract on hex_str_size (all n) + BOUNDED Kani contract triples on the real to_hex / to_bin (one-word tables, n <= 3/4, real core::fmt) and on the real fill_hex with the real u64::from_str_radix (every ASCII string of length width-1, width, width+1 for n <= 6, every 32-character ASCII string for n = 7, plus concrete non-ASCII strings)",
     "level_text": "Bounded: hex_str_size is proved for all n. Printing: for every well-formed one-word table of n <= 3 (hex; 4-5 in thorough) / n <= 2 (binary; 3 in thorough) variables the text has exactly the fixed width and digit i is the lower-case hex (binary) digit of the corresponding nibble (bit), most significant first. Parsing: for n = 0..6 and EVERY ASCII string of length width-1, width and width+1 (n = 7: every 32-character ASCII string, two words), fill_hex never panics, returns Ok only for exactly-width hex-digit strings whose value fits in 2^n bits, then stores exactly the denoted value (first 16 digits = most significant word) in a well-formed table, accepts every such lower-case string, and rejects everything else (signs, spaces, 'g', 'x', too-large digits); non-ASCII text is rejected on concrete multi-byte samples. The print/parse round trip follows from the two contracts.",
     "level_note": "BOUNDED, never counted as proved beyond the stated sizes: printing is limited by the cost of core::fmt in CBMC (one 16-digit word does not terminate); multi-word PRINT order and n >= 8 parsing are not covered; the Display/LowerHex/Binary wrappers are covered modularly (callee stubbed). Non-ASCII rejection is checked on six concrete strings only (symbolic UTF-8 validation costs 450 s per harness).",
+    "verus_units": ["kernels"],
     "kani_units": ["spec_ops.rs", "c09_text.rs"],
     "kani_filters": {"quick": ["c09q_"], "thorough": ["c09t_"]},
     "kani_scope": {r"hex_str_size": "complete(all n: loop-free function contract)", r"wrap_|display_": "complete(this n: wrapper text around the callee's text; callee stubbed by its marker contract)", r"print_(hex|bin)_n(\d)": "bounded(one-word table of this n; all contents)",
